@@ -22,6 +22,24 @@ def classes_of(tree):
     return out
 
 
+def all_classes_of(tree):
+    """top-level classes and, recursively, the public case-data classes nested in them"""
+    out = []
+
+    def walk(cls, body):
+        out.append((cls, body))
+        for i in flat_body(body):
+            if i['tag'] == 'switch':
+                for c in i['cases']:
+                    if c['body']:
+                        suffix = 'Default' if str(c['attrs'].get('default', '')).lower() == 'true' else c['attrs'].get('value')
+                        if suffix is not None:
+                            walk(f"{cls}.{pascal(i['attrs']['field'])}Data{suffix}", c['body'])
+    for cls, body in classes_of(tree):
+        walk(cls, body)
+    return out
+
+
 def build_trees(C, n_random, wire_ok=False, corpus=True, seed_shift=0):
     rng = random.Random(C.seed * 1000003 + seed_shift + sum(map(ord, C.pid)))
     G = SpecGen(rng, wire_ok=wire_ok)
@@ -29,8 +47,13 @@ def build_trees(C, n_random, wire_ok=False, corpus=True, seed_shift=0):
     if corpus:
         for name, t in minieo.corpus():
             trees.append(dict(name=name, tree=t))
+        trees.append(dict(name='mini-eo-features+explicit-defaults', tree=explicit_defaults(dict(minieo.corpus())['mini-eo-features'], rng)))
     for k in range(n_random):
-        trees.append(dict(name=f"random-{k}", tree=G.tree()))
+        t = G.tree()
+        # a third of the random trees spell every boolean attribute's default explicitly (optional="false", default="False", ...)
+        if k % 3 == 2:
+            t = explicit_defaults(t, rng)
+        trees.append(dict(name=f"random-{k}" + ('+explicit' if k % 3 == 2 else ''), tree=t))
     C.cov['feature_matrix'] = dict(sorted(G.features.items()))
     return trees, rng
 
@@ -176,3 +199,61 @@ def src_digest(sources):
         h.update(k.encode())
         h.update(sources[k].encode())
     return h.hexdigest()
+
+
+# ------------------------------------------------------------------------------------------------ C01 helpers
+def strip_bs(v):
+    if v is None:
+        return None
+    if 'l' in v:
+        return {'l': [strip_bs(x) for x in v['l']]}
+    if 'o' in v:
+        return {'o': v['o'], 'f': [[k, strip_bs(x)] for k, x in v['f'] if k != 'byte_size']}
+    if 'e' in v:
+        return {'i': v['v']}
+    return v
+
+
+def impl_roundtrip_ok(job, out):
+    """did the generated code round-trip this object? (serialize ok, deserialize ok, equal field by field, all consumed, byte_size = length)"""
+    if 'res' not in out or out['res'][0] != 'ok' or not out.get('deser'):
+        return False
+    d = out['deser'][0]
+    if d['res'][0] != 'ok' or d['data'] != out['bytes']:
+        return False
+    obj = d['res'][1]
+    bs = dict((k, v) for k, v in obj['f']).get('byte_size')
+    return strip_bs(obj) == strip_bs(job['value']) and d['pos'] == len(out['bytes']) and bs == {'i': len(out['bytes'])}
+
+
+def run_c01_cases(name, items, timeout=900):
+    """items: list of (tree, [(cls, value, impl_ok)]) -> list of (n_in_domain, failing_in_domain, disagreeing)"""
+    os.makedirs(os.path.join(COQ, 'Cases'), exist_ok=True)
+    PER = 10
+    files = []
+    for off in range(0, len(items), PER):
+        fn = os.path.join(COQ, 'Cases', f"{name}_{off // PER}.v")
+        with open(fn, 'w') as f:
+            f.write("From EO Require Import Prelude.Py Prelude.Corr Model.Spec Model.Elab Model.GenHarness.\nOpen Scope string_scope.\nOpen Scope list_scope.\nOpen Scope Z_scope.\n")
+            for k, (tree, cases) in enumerate(items[off:off + PER]):
+                f.write(f"Definition t{k} : list rfile := {coq_tree(tree)}.\n")
+                f.write(f"Definition c{k} : list (string * value * bool) :=\n  [" + ";\n   ".join(f"({cs(c)}, {cvalue(v)}, {cbool(ok)})" for c, v, ok in cases) + "].\n")
+                f.write(f"Eval vm_compute in (tree_c01 t{k} c{k}).\n")
+        files.append((fn, off, min(PER, len(items) - off)))
+    results = [None] * len(items)
+    procs = []
+    for fn, off, n in files:
+        while len([p for p in procs if p[0].poll() is None]) >= 4:
+            time.sleep(0.05)
+        p = subprocess.Popen(['bash', '-c', f'ulimit -s unlimited 2>/dev/null; exec timeout {timeout} coqc -Q {COQ} EO -w -all {fn}'], stdout=subprocess.PIPE, stderr=subprocess.STDOUT, text=True, cwd=COQ)
+        procs.append((p, fn, off, n))
+    for p, fn, off, n in procs:
+        out, _ = p.communicate()
+        if p.returncode != 0:
+            raise CoqCaseError(name, fn, out)
+        ms = re.findall(r'=\s*\((-?\d+),\s*(\[[^\]]*\])\s*(?:%Z)?,\s*(\[[^\]]*\])\s*(?:%Z)?\)', out, flags=re.S)
+        if len(ms) != n:
+            raise CoqCaseError(name, fn, out)
+        for k, (a, b, c) in enumerate(ms):
+            results[off + k] = (int(a), [int(x) for x in re.findall(r'-?\d+', b)], [int(x) for x in re.findall(r'-?\d+', c)])
+    return results
